@@ -11,7 +11,8 @@ LEVEL = "proof"
 RULE = ("generated PyPI universes (5-10 packages, 1-5 versions incl. a/b/rc/dev/post releases, specifiers of every "
         "operator and comma lists, markers over python_version/sys_platform/os_name/extra, extras requested by root "
         "and inner requirements, cycles through the root, conflict templates forcing backtracking, templates of the "
-        "three known defect shapes) x every version as root; a case is non-trivial when the graph has at least 3 nodes "
+        "known defect shapes, requirements on a package the client does not know, extras names with case and "
+        "separator variants) x every version as root; a case is non-trivial when the graph has at least 3 nodes "
         "and a false marker was dropped, or the model backtracked, or the resolver asked for the requirements of a "
         "version that is not in the final graph (a rejected or abandoned candidate)")
 TRUSTED = [
@@ -47,8 +48,10 @@ MANIFEST = dict(
           "returned state; buildGraph total on it; one version per package; root never replaced (in the graph and in the "
           "mapping); every edge target satisfies its requirement under the provider's prerelease rule; every node reachable "
           "from the root. Edge completeness and the false-marker clause hold only in restricted form (proved) and are "
-          "refuted at full strength by three witnesses on real LocalClient answers (open known findings F-C08-1..3: "
-          "hasRouteToRoot negative memo, extras requested after the pin, extras requested by abandoned versions). Model tied "
+          "refuted at full strength by witnesses on real LocalClient answers (open known findings F-C08-1..4: "
+          "hasRouteToRoot negative memo, extras requested after the pin, extras requested by abandoned versions, edges "
+          "drawn from a replaced version's requirement). Reachability is proved and checked along edges that are "
+          "requirements of their source version; the prerelease mode of every edge is pinned to findMatches' rule. Model tied "
           "to the code by differential execution on recorded client tables; all clauses also evaluated directly on Go's graphs."),
     note=("Trusted: Coq kernel (+vm_compute), gotables, extraction and driver.ml, Go harness, python generator/oracle, "
           "marker and semver functions as oracles (C16, C03). Hand-written model validated by execution, not verified "
@@ -70,7 +73,26 @@ MARKERS = [b'python_version >= "3.6"', b'python_version < "3"', b'python_version
            b'python_version in "3.8 3.9"', b"python_full_version >= '3.9.0'", b'extra == "e1" or extra == "e2"']
 BAD_MARKERS = [b'python_version >>> "3"', b'extra != "e1"', b'os_name ==']
 EXTRAS = [b"e1", b"e2", b"e1,e2"]
+XVARIANTS = [b"E1", b"e_1", b"e-1", b"E2", b"e.2"]     # distinct names to the resolver (it compares extras as written)
+VOCAB = [b"e1", b"e2"]      # extras names of the universe under construction (at most 4: the marker table is 2^n)
+
+
+def pick_vocab(rng):
+    global VOCAB
+    VOCAB = [b"e1", b"e2"]
+    if rng.random() < 0.4:
+        VOCAB.append(b"e3")
+    if rng.random() < 0.35:
+        VOCAB.append(rng.choice(XVARIANTS))
+    return VOCAB
+
+
+def pick_extras(rng):
+    """value of EnabledDependencies: one to three names of the vocabulary"""
+    k = 1 if rng.random() < 0.7 else min(len(VOCAB), rng.randrange(2, 4))
+    return b",".join(rng.sample(VOCAB, k))
 FINALS = [v for v in VERSION_POOL if not any(t in v for t in (b"a", b"b", b"rc", b"dev", b"post"))]
+NONFINALS = [v for v in VERSION_POOL if v not in FINALS]
 NAMES = [b"a", b"b", b"c", b"d", b"e", b"f", b"g", b"h", b"k", b"m", b"setuptools", b"zz"]
 
 
@@ -139,7 +161,7 @@ def marker_text(rng, tree, top=True):
 
 def gen_atom(rng, extra=None):
     if extra is not None or rng.random() < 0.28:
-        return ("atom", b"extra", b"==", extra or rng.choice(XNAMES[:2] if rng.random() < 0.85 else XNAMES), rng.random() < 0.5)
+        return ("atom", b"extra", b"==", extra or rng.choice(VOCAB if rng.random() < 0.9 else XNAMES + XVARIANTS), rng.random() < 0.5)
     r = rng.random()
     if r < 0.45:
         var = b"python_version" if rng.random() < 0.8 else b"python_full_version"
@@ -209,19 +231,24 @@ def vkey(v):
 
 
 def gen_spec(rng, target_versions):
-    if rng.random() < 0.48:
+    if rng.random() < 0.60:
         return b""
     guided = bool(target_versions) and rng.random() < 0.93
     pool = sorted(target_versions if guided else VERSION_POOL, key=vkey)
+    finals = [v for v in pool if vkey(v)[1] >= 3]
+    careful = guided and rng.random() < 0.93
+    if careful and finals and rng.random() < 0.8:
+        pool = finals       # a specifier built around final releases is met by a final release
     i = rng.randrange(len(pool))
     j = rng.randrange(len(pool))
     x, y = pool[i], pool[j]
     lo, hi = pool[min(i, j)], pool[max(i, j)]
     r = rng.random()
-    careful = guided and rng.random() < 0.9
     if r < 0.10:
         return b"==" + x
     if r < 0.22:
+        if careful and len(finals) < 2:
+            return b">=" + x
         return b"!=" + x
     if r < 0.36:
         return b"<=" + x
@@ -256,8 +283,8 @@ def gen_spec(rng, target_versions):
 
 def gen_type(rng, is_root_req):
     t = []
-    if rng.random() < (0.30 if is_root_req else 0.12):
-        t.append([K_EXTRAS, rng.choice(EXTRAS)])
+    if rng.random() < 0.25:
+        t.append([K_EXTRAS, pick_extras(rng)])
     r = rng.random()
     if r < 0.33:
         t.append([K_ENV, gen_marker(rng)])
@@ -266,13 +293,21 @@ def gen_type(rng, is_root_req):
     return t
 
 
+GHOST = b"ghost"      # a package the client has never heard of
+
+
 def gen_universe(rng):
+    pick_vocab(rng)
     npk = rng.randrange(5, 11)
     names = rng.sample(NAMES, npk)
     vers = {}
     for n in names:
         k = rng.randrange(1, 6)
-        vs = rng.sample(VERSION_POOL, k)
+        vs = []
+        while len(vs) < k:      # about one version in four is not a final release
+            v = rng.choice(FINALS) if rng.random() < 0.74 else rng.choice(NONFINALS)
+            if v not in vs:
+                vs.append(v)
         if rng.random() < 0.95 and all(vkey(v)[1] != 3 for v in vs):
             vs[rng.randrange(len(vs))] = rng.choice(FINALS)     # a package with prereleases only is not installable
         vs = list(dict.fromkeys(vs))
@@ -280,7 +315,7 @@ def gen_universe(rng):
             vs.append(b"1.0.0")
         vers[n] = vs
     uni = {}
-    density = rng.choice([0.7, 1.2, 2.0])
+    density = rng.choice([0.6, 1.0, 1.6])
     for n in names:
         uni[n] = {}
         for v in vers[n]:
@@ -290,27 +325,40 @@ def gen_universe(rng):
             reqs = []
             for tgt in targets:
                 reqs.append([tgt, gen_spec(rng, vers[tgt]), gen_type(rng, False)])
+            if rng.random() < 0.02 * max(1, len(targets)):
+                # a requirement on a package the client does not know: no candidate at all
+                reqs.insert(rng.randrange(len(reqs) + 1), [GHOST, gen_spec(rng, []), gen_type(rng, False)])
             uni[n][v] = reqs
     # conflict template: the preferred (highest) version of p demands the highest r, every q demands a
-    # lower r, lower versions of p are lenient: whatever is pinned first, the resolver has to backtrack
-    if rng.random() < 0.6 and npk >= 4:
+    # lower r, lower versions of p are lenient: whatever is pinned first, the resolver has to backtrack.
+    # Several packages depend on the pair, so that many roots meet the conflict; extras ride on the
+    # requirements involved, so that backtracking meets criteria that carry extras.
+    if rng.random() < 0.95 and npk >= 5:
         for _ in range(rng.randrange(1, 4)):
-            top, p, q, r = rng.sample(names, 4)
+            tops = rng.sample(names, rng.randrange(1, min(5, npk - 3) + 1))
+            rest = [n for n in names if n not in tops]
+            p, q, r = rng.sample(rest, 3)
             rf = sorted([v for v in vers[r] if vkey(v)[1] >= 3], key=vkey)
             if len(rf) < 2 or len(vers[p]) < 2:
                 continue
             hi = rf[-1]
-            for v in vers[top]:
-                set_req(uni[top][v], p, b"", [])
-                set_req(uni[top][v], q, b"", [])
+
+            def ex():
+                return [[K_EXTRAS, pick_extras(rng)]] if rng.random() < 0.35 else []
+            for top in tops:
+                for v in vers[top]:
+                    set_req(uni[top][v], p, b"", ex())
+                    set_req(uni[top][v], q, b"", ex())
             ps = sorted(vers[p], key=vkey)
             for i, v in enumerate(ps):
                 if i == len(ps) - 1 or rng.random() < 0.3:
-                    set_req(uni[p][v], r, rng.choice([b">=", b"=="]) + hi, [])
+                    set_req(uni[p][v], r, rng.choice([b">=", b"=="]) + hi, ex())
                 elif rng.random() < 0.5:
-                    set_req(uni[p][v], r, b"", [])
+                    set_req(uni[p][v], r, b"", ex())
+                else:
+                    drop_req(uni[p][v], r)
             for v in vers[q]:
-                set_req(uni[q][v], r, rng.choice([b"<", b"!="]) + hi, [])
+                set_req(uni[q][v], r, rng.choice([b"<", b"!="]) + hi, ex())
     # the two known defect shapes, so that every run measures them (F-C08-1, F-C08-2)
     if rng.random() < 0.04 and npk >= 5:
         top, q, x, p = rng.sample(names, 4)
@@ -326,15 +374,16 @@ def gen_universe(rng):
                 uni[p][v] = [[x, b"", []], [q, b"!=" + rng.choice(vers[q]), []]]
     if rng.random() < 0.04 and npk >= 6:
         top, b1, b2, d, e, f = rng.sample(names, 6)
+        xa, xb = rng.sample(VOCAB, 2)
         for v in vers[top]:
             set_req(uni[top][v], b1, b"", [])
             set_req(uni[top][v], b2, b"", [])
         for v in vers[b1]:
-            uni[b1][v] = [[d, b"", [[K_EXTRAS, b"e1"]]]]
+            uni[b1][v] = [[d, b"", [[K_EXTRAS, xa]]]]
         for v in vers[b2]:
-            uni[b2][v] = [[d, b"", [[K_EXTRAS, b"e2"]]]]
+            uni[b2][v] = [[d, b"", [[K_EXTRAS, xb]]]]
         for v in vers[d]:
-            uni[d][v] = [[e, b"", [[K_ENV, extra_marker(rng, b"e1")]]], [f, b"", [[K_ENV, extra_marker(rng, b"e2")]]]]
+            uni[d][v] = [[e, b"", [[K_ENV, extra_marker(rng, xa)]]], [f, b"", [[K_ENV, extra_marker(rng, xb)]]]]
     if rng.random() < 0.10:
         rejected_extras_template(rng, names, vers, uni)
     if rng.random() < 0.04 and npk >= 7:
@@ -347,18 +396,19 @@ def gen_universe(rng):
             x, y, z = sorted(picked[:3])
             top, k, m = picked[3:]
             whi = sorted([v for v in vers[w] if vkey(v)[1] == 3], key=vkey)[-1]
+            xe = rng.choice(VOCAB)
             for v in vers[top]:
                 uni[top][v] = [[w, b"", []], [k, b"", []]]
             for v in vers[w]:
                 uni[w][v] = [[x, b"", []], [y, b"", []]] if v == whi else [[y, b"", []]]
             for v in vers[x]:
-                uni[x][v] = [[z, b"", [[K_EXTRAS, b"e2"]]]]
+                uni[x][v] = [[z, b"", [[K_EXTRAS, xe]]]]
             for v in vers[y]:
                 uni[y][v] = [[w, b"<" + whi, []]]
             for v in vers[k]:
                 uni[k][v] = [[z, b"", []]]
             for v in vers[z]:
-                uni[z][v] = [[m, b"", [[K_ENV, extra_marker(rng, b"e2")]]]]
+                uni[z][v] = [[m, b"", [[K_ENV, extra_marker(rng, xe)]]]]
             for v in vers[m]:
                 uni[m][v] = []
     return names, vers, uni
@@ -379,9 +429,10 @@ def rejected_extras_template(rng, names, vers, uni):
     picked = rng.sample(names, 5 + k)
     top, cand, foo, z, w = picked[:5]
     gated = picked[5:]
-    ex = XNAMES[:k] if k > 1 else [rng.choice(XNAMES)]
+    k = min(k, len(VOCAB))
+    ex = rng.sample(VOCAB, k)
     if k == 1:
-        ex = rng.sample(XNAMES, 2)          # one gated extra, one that gates nothing
+        ex = rng.sample(VOCAB, 2)           # one gated extra, one that gates nothing
         gated_for = {ex[0]: gated[0]}
     else:
         gated_for = dict(zip(ex, gated))
@@ -425,6 +476,10 @@ def rejected_extras_template(rng, names, vers, uni):
         uni[top][v] = [list(d) for d in direct]
 
 
+def drop_req(reqs, tgt):
+    reqs[:] = [e for e in reqs if e[0] != tgt]
+
+
 def set_req(reqs, tgt, spec, ty):
     for e in reqs:
         if e[0] == tgt:
@@ -461,14 +516,17 @@ class Oracle:
     VerifParseEvalMarker table for markers and Go's MatchingVersions / MatchVersionPrerelease answers for
     satisfaction.
 
-    Satisfaction rule applied: the target version w of an edge labelled with requirement d satisfies d when
-    w is in the client's MatchingVersions(d) (which already applies PEP 440's rule for a single specifier), or w
-    matches d with prereleases admitted (the provider's matchingVersionsWithPrereleases, used by the resolver when
-    the package carries several requirements one of which names a prerelease).  For requirements on the root's
-    package only the root version itself counts.  This is the weakest reading of 'satisfies its specifier under
-    pip's prerelease rule'; which of the two applies depends on requirements that need not be visible in the graph
-    (requirements of versions pinned earlier and later replaced stay in the criterion, as in resolvelib at the
-    modelled release), so the oracle does not demand more."""
+    Satisfaction rule applied (pip's prerelease rule): the target version w of an edge labelled with requirement d
+    satisfies d when w is in the client's MatchingVersions(d), which applies PEP 440's rule for a single
+    specifier.  Only when some requirement that the universe places on w's package names a prerelease itself
+    (Constraint.HasPrerelease) may w instead match d with prereleases admitted (the provider's
+    matchingVersionsWithPrereleases, used when the package carries several requirements one of which names a
+    prerelease; which requirements those are need not be visible in the graph, because requirements of versions
+    pinned earlier and later replaced stay in the criterion, so the oracle looks at the whole universe).  For
+    requirements on the root's package only the root version itself counts.
+
+    An edge counts as real when its label is a requirement of its source VERSION.  Requested extras and
+    reachability are computed over real edges only; the other edges are judged (clause stale_edge)."""
 
     def __init__(self, uni, root, oracles, direct):
         self.uni = uni
@@ -478,8 +536,10 @@ class Oracle:
             self.marker[(raw, tuple(ex))] = (ok, val)
         self.all_extras = sorted(set(e for _, ex, _, _ in oracles[0] for e in ex))
         self.mv = {}
-        for pkg, rq, ok, mv, withpre in direct:
+        self.pkg_pre = {}
+        for pkg, rq, ok, mv, withpre, has_pre in direct:
             self.mv[(pkg, rq)] = (ok, mv, withpre)
+            self.pkg_pre[pkg] = self.pkg_pre.get(pkg, False) or bool(has_pre)
 
     def marker_val(self, ty, extras):
         """truth of the requirement's marker for a set of extras: from the marker's own structure when this generator
@@ -507,9 +567,10 @@ class Oracle:
 
     def satisfies(self, pkg, rq, w):
         ok, mv, withpre = self.mv[(pkg, rq)]
+        good = w in mv or (self.pkg_pre.get(pkg, False) and w in withpre)
         if pkg == self.root[0]:
-            return w == self.root[1] and (w in mv or w in withpre)
-        return w in mv or w in withpre
+            return w == self.root[1] and good
+        return good
 
     def check(self, obs):
         """returns list of (clause, detail) hits"""
@@ -527,9 +588,15 @@ class Oracle:
             hits.append(("root_fixed", "second version of the root package"))
         # extras in force per node: union of EnabledDependencies over incoming edges
         extras = {nv: set() for nv in nodes}
-        out = {nv: [] for nv in nodes}
+        out = {nv: [] for nv in nodes}          # real edges only
         for f, t, rq, ty in edges:
             fk, tk = (f[0], f[2]), (t[0], t[2])
+            if not any(tgt == tk[0] and r == rq and y == ty for tgt, r, y in self.uni.get(fk[0], {}).get(fk[1], [])):
+                if fk != nodes[0]:
+                    hits.append(("stale_edge", (fk, tk, rq, ty)))
+                else:
+                    hits.append(("root_edge_foreign", (tk, rq, ty)))
+                continue
             es = dict((k, v) for k, v in ty).get(K_EXTRAS)
             if es is not None and tk in extras:
                 extras[tk].update(es.split(b","))
@@ -557,13 +624,7 @@ class Oracle:
                 else:
                     if matching:
                         hits.append(("false_marker_edge", (nv, tgt, rq, ty, sorted(extras[nv]))))
-        # the root is not replaced: what leaves the root node are requirements of the root version itself
-        if nodes:
-            rreqs = self.uni.get(nodes[0][0], {}).get(nodes[0][1], [])
-            for tk, erq, ety in out.get(nodes[0], []):
-                if not any(tgt == tk[0] and rq == erq and ty == ety for tgt, rq, ty in rreqs):
-                    hits.append(("root_edge_foreign", (tk, erq, ety)))
-        # reachability
+        # reachability, along real edges
         seen = {nodes[0]} if nodes else set()
         todo = list(seen)
         while todo:
@@ -577,16 +638,6 @@ class Oracle:
                 hits.append(("unreachable", nv))
         return hits
 
-    def stale_edges(self, obs):
-        """edges whose label is not a requirement of their source version (not a clause of C08; measured)"""
-        n = 0
-        for f, t, rq, ty in obs[2]:
-            reqs = self.uni.get(f[0], {}).get(f[2], [])
-            if not any(tgt == t[0] and r == rq and y == ty for tgt, r, y in reqs):
-                n += 1
-        return n
-
-
 def classify(hit, orc):
     """open known finding an oracle hit is an instance of (None: not a known class).  The classes are
     structural; a hit is counted as known only if the model (the proved copy of the pinned behaviour)
@@ -597,6 +648,12 @@ def classify(hit, orc):
         if extras and orc.marker_val(ty, []) is False:
             return "F-C08-2"     # true only through extras: the requirement was decided before the extra was requested
         return "F-C08-1"         # the required package is pinned but hasRouteToRoot left it out
+    if clause == "stale_edge":
+        fk, tk, rq, ty = d
+        others = [reqs for v, reqs in orc.uni.get(fk[0], {}).items() if v != fk[1]]
+        if any(tgt == tk[0] and r == rq and y == ty for reqs in others for tgt, r, y in reqs):
+            return "F-C08-4"     # the requirement of a version of the source's package that was pinned and then replaced
+        return None
     if clause == "false_marker_edge":
         nv, tgt, rq, ty, extras = d
         if orc.marker_val(ty, orc.all_extras) is True:
@@ -673,8 +730,8 @@ def run_batch(ctx, unis, label):
                 violation("the client gave two different answers to the same call within one resolution",
                               inp, observed="inconsistent")
             if not wf:
-                violation("client_wf fails on the recorded table (an answer about another package, or a "
-                              "requirement key that is not of type Requirement)", inp)
+                violation("client_wf fails on the recorded table (an answer about another package, a MatchingVersions "
+                              "answer that is not a Concrete version, or a requirement key that is not of type Requirement)", inp)
             # Go on the table client must reproduce Go on the recording client
             if iobs != rec:
                 ctx.divergence("pypi(table-vs-recorded)", inp.get()["arg"], sx(iobs), sx(rec))
@@ -682,7 +739,9 @@ def run_batch(ctx, unis, label):
                 violation("canonical graph differs between runs on the same universe (map iteration order)",
                               inp, observed=sx(raw_obs))
             if raw_differs:
-                ctx.count("raw_client_differs_from_recording_client")
+                violation("the resolution on the plain LocalClient differs from the one observed through the recording "
+                          "client (the resolver's result depends on something other than the client's answers)",
+                          inp, observed=sx(raw_obs), required=sx(rec))
             ctx.count("backtracks:" + ("none" if nb <= 0 else "1" if nb == 1 else "2-4" if nb <= 4 else "5+"))
             kind = rec[0].decode()
             ctx.count("outcome:" + kind)
@@ -698,13 +757,11 @@ def run_batch(ctx, unis, label):
                     kf = classify(h, orc)
                     if kf is not None and not orc.marker_agrees(h[1][3]):
                         kf = None      # the marker itself is evaluated wrongly: not an instance of a known class
-                    if kf is not None and (repr(h) in model_hits or which == "raw"):
+                    if kf is not None and repr(h) in model_hits:
                         ctx.known_hits[kf] = ctx.known_hits.get(kf, 0) + 1
                         continue
                     violation("C08 clause %s fails on the graph returned by the resolver (%s client)" % (h[0], which),
                                   inp, observed=sx(g), required=repr(h[1]))
-            if orc.stale_edges(rec):
-                ctx.count("graphs_with_edges_labelled_by_a_replaced_version's_requirement")
             nn = len(rec[1])
             ctx.count("nodes", nn)
             ctx.count("graphs")
@@ -806,6 +863,7 @@ def known_witnesses(ctx):
             ctx.count("known_witness_changed:" + k["id"])
         else:
             ctx.count("known_witness_reproduced:" + k["id"])
+            ctx.notes.append("known finding %s: witness replayed on the implementation, still fails as recorded" % k["id"])
 
 
 def run(ctx):
@@ -813,7 +871,7 @@ def run(ctx):
     if ctx.replay:
         replay(ctx)
     known_witnesses(ctx)
-    n_uni = ctx.scale(400, 20000)
+    n_uni = ctx.scale(300, 20000)
     batch = []
     first_cases = None
     for u in range(n_uni):
